@@ -79,7 +79,9 @@ def abi_item(sig: str, mutability="nonpayable") -> dict:
 def _rename(items, prefix):
     out = []
     for it in items:
-        if isinstance(it, tuple) and it[0] in ("LABEL", "PUSHL", "MARK", "PUSHM"):
+        if isinstance(it, tuple) and len(it) > 1 and isinstance(it[1], str) and it[1].startswith("data."):
+            out.append(it)  # global data marks (Spec.data) are not function-local
+        elif isinstance(it, tuple) and it[0] in ("LABEL", "PUSHL", "MARK", "PUSHM"):
             out.append((it[0], f"{prefix}.{it[1]}"))
         elif isinstance(it, tuple) and it[0] == "PUSHSIZE":
             out.append((it[0], f"{prefix}.{it[1]}", f"{prefix}.{it[2]}"))
@@ -100,6 +102,7 @@ class Spec:
     filename: str | None = None
     extra_abi: list = field(default_factory=list)
     raw_runtime: bytes | None = None
+    data: dict = field(default_factory=dict)  # name -> bytes appended after the code; marks data.<name> / data.<name>.end
 
     def sigs(self):
         return [f[0] for f in self.fns]
@@ -114,6 +117,8 @@ class Spec:
         items += ["POP"] + (_rename(self.fallback, "fb") if self.fallback is not None else ["PUSH0", "PUSH0", "REVERT"])
         for k, f in enumerate(self.fns):
             items += [("LABEL", f"fn{k}"), "POP"] + _rename(f[1], f"f{k}") + ["STOP"]
+        for name, blob in self.data.items():
+            items += [("MARK", f"data.{name}"), bytes(blob), ("MARK", f"data.{name}.end")]
         return asm.assemble(items)
 
     def creation(self) -> bytes:
@@ -361,3 +366,26 @@ def fail_flag() -> list:
     failed = int.from_bytes(b"failed".ljust(32, b"\0"), "big")
     return call_cheat("store(address,bytes32,bytes32)", [[("PUSH", HEVM, 20)], [("PUSH", failed, 32)], [("PUSH", 1)]]) + [
         "POP"]
+
+
+def create_from_data(name: str, value_items=None, store_slot: int | None = None) -> list:
+    """CREATE a contract from the init code held in Spec.data[name]; leaves the new address on the stack (or stores it)"""
+    items = [("PUSHSIZE", f"data.{name}", f"data.{name}.end"), ("PUSHM", f"data.{name}"), ("PUSH", 0x200), "CODECOPY",
+             ("PUSHSIZE", f"data.{name}", f"data.{name}.end"), ("PUSH", 0x200)] + list(value_items or [("PUSH", 0)]) + ["CREATE"]
+    if store_slot is not None:
+        items += [("PUSH", store_slot), "SSTORE"]
+    return items
+
+
+def ext_call(addr_items, sig: str, words=(), value_items=None, ret_words=1, static=False) -> list:
+    """call addr.sig(words...) ; leaves the success flag; returned words at memory 0x80.."""
+    sel = int.from_bytes(selector(sig), "big")
+    items = [("PUSH", sel << 224, 32), ("PUSH", 0x80), "MSTORE"]
+    for k, w in enumerate(words):
+        items += list(w) + [("PUSH", 0x84 + 32 * k), "MSTORE"]
+    n = 4 + 32 * len(words)
+    items += [("PUSH", 32 * ret_words), ("PUSH", 0x80), ("PUSH", n), ("PUSH", 0x80)]
+    if not static:
+        items += list(value_items or [("PUSH", 0)])
+    items += list(addr_items) + ["GAS", "STATICCALL" if static else "CALL"]
+    return items
